@@ -11,7 +11,7 @@ from harness import hidc_driver as H
 PROPERTY = 'C17'
 RULE = ('write/writeln(int): every 16-bit value exhaustively (batches passed as argv int array, alternating '
         'write/writeln forms), boundary grid + Hypothesis-drawn values at 24/32/64 bit; write(bool) from every bool '
-        'source; write(byte) all 256 values; write(string)/write(byte array) with lengths 0..64 and arbitrary byte '
+        'source incl. bools cast from run-time ints / bytes of every bit pattern class (negative, zero low byte, sign bit only), stored, negated, passed and returned; write(byte) all 256 values; write(string)/write(byte array) with lengths 0..64 and arbitrary byte '
         'contents in every storage form (const global, hoisted literal, stack literal, mutable local, byte a[n], '
         'parameter R/RC/RW, argv array, string->const byte[] conversion, argv string), also placed around and above address '
         '0x8000 of the const and state sections at 16 bit, and next to numerically equal bool / int / string constants used before or after the call; each call site placed between '
@@ -324,6 +324,19 @@ empty @is_you(int one, int zero) {
 BOOL_EXP = (b'true false true false true false true false false true true false true false true '
             b'true false true false false false true true\nfalse\ntrue\nfalse\n')
 
+# write(bool) of bools that come from a run-time int / byte: the value written must be canonical whatever bit pattern
+# the int had (negative values, zero low byte, only the sign bit set)
+BOOLINT_SRC = ('bool id(bool q) { return q; }\n'
+               'empty @is_you(const int[] a) { for (int i = 0; i < a.length; i += 1) { '
+               'write(a[i] is bool); bool b = a[i] is bool; write(b); write(not b); bool[] box = [false, b, false]; write(box[1]); write(box[0]); write(box[2]); '
+               'write(b == true); write(id(a[i] is bool)); write((a[i] is byte) is bool); write(\';\'); } }')
+
+
+def boolint_expected(vals):
+    t = lambda x: b'true' if x else b'false'   # noqa
+    return b''.join(t(v) + t(v) + t(not v) + t(v) + b'falsefalse' + t(v) + t(v) + t(v & 0xFF) + b';' for v in vals)
+
+
 BYTE_SRC = {
     'argv': 'empty @is_you(byte[] a) { for (int i = 0; i < a.length; i += 1) { write(a[i]); } writeln(a[0]); }',
     'const': 'empty @is_you(const byte[] a) { for (int i = 0; i < a.length; i += 1) { byte b = a[i]; write(b); } writeln(a[0]); }',
@@ -383,6 +396,19 @@ def run_shard(desc, seed, tier):
             stats.nt('bool:%d' % ws)
             if r.out != BOOL_EXP or not r.won:
                 stats.violation({'kind': 'bool', 'value': ws, 'message': 'write(bool) ws=%d: got %r flags=%r' % (ws, r.out, r.flags)})
+            lo_ = -(1 << (8 * ws - 1))
+            bvals = [0, 1, -1, 2, 128, -128, 255, 256, -256, -512, -4096, 512, 4096, lo_, lo_ + 1, lo_ + 256, -lo_ - 1, -lo_ - 256, 257, -255, -257, 0x7f00, -0x7f00]
+            r = execute(BOOLINT_SRC, [str(v) for v in bvals], ws=ws)
+            stats.evaluated(len(bvals))
+            stats.cls('bool_from_int', len(bvals))
+            for v in bvals:
+                stats.nt('boolint:%d:%d' % (ws, v))
+            if r.out != boolint_expected(bvals) or not r.won:
+                got = r.out.split(b';')
+                want = boolint_expected(bvals).split(b';')
+                bad = [(v, g, w) for v, g, w in zip(bvals, got, want) if g != w][:3]
+                stats.violation({'kind': 'boolint', 'value': ws, 'message': 'write(bool) of int-derived bools ws=%d: (value, got, expected) %r flags=%r' % (ws, bad, r.flags),
+                                 'signature': 'boolint'})
             for form, src in BYTE_SRC.items():
                 vals = list(range(256))
                 if form == 'narrow':
@@ -525,6 +551,10 @@ def replay(case):
             r = check_bytes_case(st_, v[0], v[1], v[2], v[3], v[4], tuple(v[5]))
         elif kind == 'int_site':
             r = check_int_site(st_, v[0], v[1], v[2], v[3])
+        elif kind == 'boolint':
+            s2 = run_shard(('bool_byte', 0), 1, 'quick')
+            bad = [x for x in s2.violations if x.get('kind') == 'boolint']
+            r = ('boolint', bad[0]['message']) if bad else None
         elif kind == 'bool':
             rr = execute(BOOL_SRC, ['1', '0'], ws=v)
             r = None if (rr.out == BOOL_EXP and rr.won) else ('bool', 'write(bool): got %r' % rr.out)
